@@ -5,10 +5,10 @@ S=$1; W=$2
 cd $W || exit 2
 git checkout -q -- . && git apply $S/patch.diff || { echo "APPLY-FAILED"; exit 2; }
 mkdir -p seed_out/$(basename $S) && cp -r $S/* seed_out/$(basename $S)/ 2>/dev/null
-make -f Makefile.gnu vm -j16 >/dev/null 2>&1 || { echo "BUILD-FAILED"; git checkout -q -- .; exit 2; }
+make -f Makefile.gnu bin/nanoc_c vm -j16 >/dev/null 2>&1 || { echo "BUILD-FAILED"; git checkout -q -- .; exit 2; }
 T=$(make -f Makefile.gnu test-nanovirt 2>&1 | grep "Results:" | tail -1)
 ( cd $W && bash seed_out/$(basename $S)/demo.sh >/tmp/demo_with.log 2>&1 ); RW=$?
 git checkout -q -- .
-make -f Makefile.gnu vm -j16 >/dev/null 2>&1
+make -f Makefile.gnu bin/nanoc_c vm -j16 >/dev/null 2>&1
 ( cd $W && bash seed_out/$(basename $S)/demo.sh >/tmp/demo_without.log 2>&1 ); RO=$?
 echo "$(basename $S): tests_with_change='$T' demo_with_change_rc=$RW demo_clean_rc=$RO"
